@@ -270,6 +270,7 @@ def check(pid, tier, seed):
         run_jobs(normal, parallel)
         for j in fuzz:
             run_jobs([j], 1)
+        hang_done = ""
         for j in jobs:
             out = j.output()
             if j.timed_out:
@@ -288,6 +289,11 @@ def check(pid, tier, seed):
                     if m and int(m.group(1)) < j.requested:
                         inconclusive.append("%s: only %s of %d cases ran" % (j.name, m.group(1), j.requested))
                 continue
+            if os.path.exists(j.failpath + ".hang") and hang_done:
+                log("---- %s: another case was nominated as a hang; one confirmation per run (%s)" % (j.name, hang_done))
+                if hang_done != "confirmed":
+                    inconclusive.append("%s: a case exceeded the wall-clock watchdog (not confirmed separately)" % j.name)
+                continue
             if os.path.exists(j.failpath + ".hang"):
                 # the per-case watchdog nominated a hang: confirm it in a fresh process under a CPU-time limit
                 hp = j.failpath + ".hang"
@@ -302,6 +308,7 @@ def check(pid, tier, seed):
                     status = r.get(hp, ("ERROR", ""))[0]
                 except Exception as e:
                     status = "ERROR %s" % e
+                hang_done = "confirmed" if status in ("HANG", "FAIL") else "not confirmed"
                 if status in ("HANG", "FAIL"):
                     # FAIL: alone in a fresh process the case dies (e.g. the runtime's "all goroutines are asleep - deadlock!")
                     violations.append(save_replay(pid, hp))
